@@ -222,13 +222,78 @@ theorem getLast?_drop {α : Type} (l : List α) (n : Nat) (h : n < l.length) :
   rw [List.getLast?_drop]
   simp [Nat.not_le.mpr h]
 
+/-! ### source order -/
+
+/-- token lines do not decrease -/
+def SortedLines (ts : List Tok) : Prop := ts.Pairwise (fun a b => a.line ≤ b.line)
+
+theorem getC_ge (comments : Array Bytes) (i : Nat) (h : comments.size ≤ i) : getC comments i = [] := by
+  unfold getC
+  have : comments[i]? = none := by simp; omega
+  rw [this]; rfl
+
+/-- after the tokens of the first line, the lines are greater -/
+theorem sorted_dropWhile (t0 : Tok) (rest : List Tok) (h : SortedLines (t0 :: rest)) :
+    ∀ t ∈ rest.dropWhile (·.line == t0.line), t0.line + 1 ≤ t.line := by
+  unfold SortedLines at h
+  rw [List.pairwise_cons] at h
+  obtain ⟨h0, hr⟩ := h
+  intro t ht
+  have hsuf : rest.dropWhile (·.line == t0.line) <:+ rest := List.dropWhile_suffix _
+  have hpw := hr.sublist hsuf.sublist
+  cases hd : rest.dropWhile (·.line == t0.line) with
+  | nil => rw [hd] at ht; simp at ht
+  | cons x xs =>
+    rw [hd] at ht hpw
+    have hx : (x.line == t0.line) = false := by
+      have := List.head_dropWhile_not (fun a : Tok => a.line == t0.line) rest (by rw [hd]; simp)
+      simpa [hd] using this
+    have hxm : x ∈ rest := hsuf.subset (by rw [hd]; simp)
+    have hx0 := h0 x hxm
+    have hxne : x.line ≠ t0.line := by simpa using hx
+    rw [List.pairwise_cons] at hpw
+    rcases List.mem_cons.mp ht with rfl | htx
+    · omega
+    · have := hpw.1 t htx
+      omega
+
+theorem sorted_dropWhile_sorted (t0 : Tok) (rest : List Tok) (h : SortedLines (t0 :: rest)) :
+    SortedLines (rest.dropWhile (·.line == t0.line)) := by
+  unfold SortedLines at h ⊢
+  rw [List.pairwise_cons] at h
+  exact h.2.sublist (List.dropWhile_suffix _).sublist
+
+/-- moving the cursor past a line: that line's comment comes first -/
+theorem itemsF_advance (c : Nat → Bytes) (hi : Nat) (hEmpty : ∀ i, hi ≤ i → c i = []) (L : Nat) (src : List Tok)
+    (h : ∀ t ∈ src, L + 1 ≤ t.line) :
+    itemsF c hi L src = cmtRange c L 1 ++ itemsF c hi (L + 1) src := by
+  cases src with
+  | nil =>
+    simp only [itemsF]
+    by_cases hl : L < hi
+    · have e : hi - L = 1 + (hi - (L + 1)) := by omega
+      rw [e, cmtRange_add]
+    · have e1 : hi - L = 0 := by omega
+      have e2 : hi - (L + 1) = 0 := by omega
+      rw [e1, e2, cmtRange_one, hEmpty L (by omega)]
+      rfl
+  | cons t r =>
+    have ht := h t (by simp)
+    simp only [itemsF]
+    have e : t.line - L = 1 + (t.line - (L + 1)) := by omega
+    rw [e, cmtRange_add, Nat.max_eq_right (by omega), Nat.max_eq_right ht, List.append_assoc]
+
 /-! ### the loop -/
 
 /-- `renderLoop` appends well-formed pieces whose source tokens are the tokens it was given. -/
 theorem renderLoop_pieces (comments : Array Bytes) (hcm : wfComments comments) :
     ∀ (f : Nat) (s s' : RSt) (ts : List Tok), renderLoop comments f s ts = some s' →
       (∀ t ∈ ts, wfTok t = true) → linesOK f ts = true →
-      ∃ ps : List Piece, s'.out = s.out ++ piecesBytes ps ∧ (∀ p ∈ ps, p.ok) ∧ ps.flatMap Piece.src = ts := by
+      ∃ ps : List Piece, s'.out = s.out ++ piecesBytes ps ∧ (∀ p ∈ ps, p.ok) ∧ ps.flatMap Piece.src = ts ∧
+        (SortedLines ts → (∀ t ∈ ts, s.commentLine ≤ t.line) →
+          itemsF (getC comments) comments.size s.commentLine ts =
+            ps.flatMap Piece.srcItems ++
+              cmtRange (getC comments) s'.commentLine (comments.size - s'.commentLine)) := by
   intro f
   induction f with
   | zero => intro s s' ts h; simp [renderLoop] at h
@@ -238,19 +303,26 @@ theorem renderLoop_pieces (comments : Array Bytes) (hcm : wfComments comments) :
     | nil =>
       simp only [renderLoop, Option.some.injEq] at h
       subst h
-      exact ⟨[], by simp [piecesBytes], by simp, rfl⟩
+      exact ⟨[], by simp [piecesBytes], by simp, rfl, fun _ _ => by simp [itemsF]⟩
     | cons t0 rest =>
       rw [linesOK, Bool.and_eq_true] at hlines
       obtain ⟨hline, hrestOK⟩ := hlines
       rw [renderLoop] at h
       simp only [] at h
-      obtain ⟨psF, hF1, hF2, hF3, hF4, hF5, hF6⟩ := flushComments_pieces comments hcm
+      obtain ⟨psF, hF1, hF2, hF3, hF4, hF5, hF6, hF7⟩ := flushComments_pieces comments hcm
         ((s.indent : Int) + if s.prevLineHanging then 2 else 0) t0.line (t0.line - s.commentLine + 1) s
+      replace hF7 := hF7 (by omega)
       generalize flushComments comments ((s.indent : Int) + if s.prevLineHanging then 2 else 0) t0.line
-        (t0.line - s.commentLine + 1) s = s1 at h hF1 hF4 hF5 hF6
+        (t0.line - s.commentLine + 1) s = s1 at h hF1 hF4 hF5 hF6 hF7
+      have hgline : ∀ t ∈ t0 :: rest.takeWhile (·.line == t0.line), t.line = t0.line := by
+        intro t ht
+        rcases List.mem_cons.mp ht with rfl | ht
+        · rfl
+        · have := List.all_eq_true.mp (List.all_takeWhile (p := fun x : Tok => x.line == t0.line) (l := rest)) t ht
+          simpa using this
       have hts : t0 :: rest = (t0 :: rest.takeWhile (·.line == t0.line)) ++ rest.dropWhile (·.line == t0.line) := by
         simp
-      generalize hg : t0 :: rest.takeWhile (·.line == t0.line) = g at h hline hts
+      generalize hg : t0 :: rest.takeWhile (·.line == t0.line) = g at h hline hts hgline
       obtain ⟨semis, hsplit, hsemi, hslen⟩ := stripSemicolons_split g
       unfold lineOK at hline
       simp only at hline
@@ -318,12 +390,12 @@ theorem renderLoop_pieces (comments : Array Bytes) (hcm : wfComments comments) :
             apply hwf
             rw [hts]
             exact List.mem_append_right _ ht
-          obtain ⟨ps', hp1, hp2, hp3⟩ := ih _ _ _ h hwfsrc hrestOK
-          simp only at hp1
-          obtain ⟨com, hcw, _, hct⟩ := commentText_shape comments hcm t0.line 0
+          obtain ⟨ps', hp1, hp2, hp3, hp4⟩ := ih _ _ _ h hwfsrc hrestOK
+          simp only at hp1 hp4
+          obtain ⟨com, hcom, hcw, _, hct⟩ := commentText_shape comments hcm t0.line 0
           rw [hct, hbuf, hX1, hY1, hF1] at hp1
           refine ⟨psF ++ (if s1.prevLine < t0.line - 1 then [Piece.blank] else []) ++
-            [Piece.toks (4 * z).toNat names m lts com semis] ++ ps', ?_, ?_, ?_⟩
+            [Piece.toks (4 * z).toNat names m lts com semis] ++ ps', ?_, ?_, ?_, ?_⟩
           · rw [hp1]
             simp only [piecesBytes, List.flatMap_append, List.flatMap_cons, List.flatMap_nil, Piece.bytes,
               List.append_assoc, List.append_nil, tabs_replicate]
@@ -360,6 +432,23 @@ theorem renderLoop_pieces (comments : Array Bytes) (hcm : wfComments comments) :
             have : List.flatMap Piece.src (if s1.prevLine < t0.line - 1 then [Piece.blank] else []) = [] := by
               split <;> simp [Piece.src]
             rw [this, List.nil_append, ← hX2, ← hsplit, ← hts]
+          · intro hsorted hlow
+            have hci : s.commentLine ≤ t0.line := hlow t0 (by simp)
+            obtain ⟨hF7a, hF7b⟩ := hF7
+            have hsrcl := sorted_dropWhile t0 rest hsorted
+            have hEmpty : ∀ i, comments.size ≤ i → getC comments i = [] := getC_ge comments
+            have hg0 : g ≠ [] := by rw [← hg]; simp
+            rw [hts, itemsF_same_line _ _ g t0.line s.commentLine _ hgline hci hg0,
+              itemsF_advance _ _ hEmpty t0.line _ hsrcl,
+              hp4 (sorted_dropWhile_sorted t0 rest hsorted) hsrcl]
+            have hb : List.flatMap Piece.srcItems (if s1.prevLine < t0.line - 1 then [Piece.blank] else []) = [] := by
+              split <;> simp [Piece.srcItems, Piece.src, Piece.outComment]
+            have hpiece : Piece.srcItems (Piece.toks (4 * z).toNat names m lts com semis) =
+                g.map (fun t => Item.tok t.text) ++ cmtRange (getC comments) t0.line 1 := by
+              simp only [Piece.srcItems, Piece.src, Piece.outComment]
+              rw [← hX2, ← hsplit, cmtRange_one, ← hcom, strip_isEmpty hcw]
+            simp only [List.flatMap_append, List.flatMap_cons, List.flatMap_nil, hF7b, hb, hpiece,
+              List.append_nil, List.append_assoc, List.nil_append]
 
 /-- the trailing comments -/
 theorem trailingComments_pieces (comments : Array Bytes) (hcm : wfComments comments) :
